@@ -9,7 +9,10 @@ rm -rf $M; mkdir -p $M
 for d in src bindings util man doc; do cp -a /repo/$d $M/$d; done
 ( cd $M && patch -p1 -s --no-backup-if-mismatch < $( [ -f /verif/seeded/$S/patch.ported.diff ] && echo /verif/seeded/$S/patch.ported.diff || echo /verif/seeded/$S/patch.diff ) ) || { echo "$S: patch failed"; exit 2; }
 for c in $CHECKS; do
+  # the evidence file must keep describing the last run on /repo itself, not this run on a changed copy
+  [ -f /verif/evidence/$c.json ] && cp /verif/evidence/$c.json /var/tmp/evidence-keep-$c.$$
   out=$(cd /verif && VERIF_REPO=$M timeout 1500 python3 checks/$c.py 2>&1); rc=$?
+  [ -f /var/tmp/evidence-keep-$c.$$ ] && mv /var/tmp/evidence-keep-$c.$$ /verif/evidence/$c.json
   echo "== seeded/$S check $c: exit $rc"
   echo "$out" | grep -v "^KNOWN-FINDING\|^note:" | cut -c1-300 | head -8
   printf '%s' "$out" > /var/tmp/run_seed_out.$$
